@@ -915,7 +915,52 @@ def facts_route():
     return out
 
 
-SECTIONS = [("stream", facts_stream), ("control", facts_control), ("packets", facts_packets), ("conn", facts_conn), ("shared", facts_shared), ("auth", facts_auth), ("results", facts_results), ("catalog", facts_catalog), ("charset", facts_charset), ("vars", facts_vars), ("route", facts_route)]
+# ----------------------------------------------------------------------------- outlines
+# Which functions, classes, methods and class-level names each module defines.  Body facts compare the functions the
+# model was transcribed from; an ADDED method (an override in a subclass, a new helper a transcribed function now goes
+# through) changes no compared body of its own class - the outline of the module does change.
+OUTLINE_MODULES = ["auth.py", "charset.py", "connection.py", "control.py", "intercept.py", "packets.py", "prepared.py", "results.py",
+                   "schema.py", "server.py", "session.py", "stream.py", "utils.py", "variables.py"]
+
+
+def module_outline(fname):
+    tree = parse(fname)
+    out = []
+
+    def visit(body, prefix):
+        for n in body:
+            if isinstance(n, (ast.FunctionDef, ast.AsyncFunctionDef)):
+                out.append(prefix + n.name + "()")
+            elif isinstance(n, ast.ClassDef):
+                out.append(prefix + "class " + n.name + "(" + ", ".join(ast.unparse(b) for b in n.bases) + ")")
+                visit(n.body, prefix + n.name + ".")
+            elif isinstance(n, ast.Assign):
+                for t in n.targets:
+                    out.append(prefix + ast.unparse(t) + " =")
+            elif isinstance(n, ast.AnnAssign):
+                out.append(prefix + ast.unparse(n.target) + " =")
+    visit(tree.body, "")
+    return "\n".join(out)
+
+
+def facts_outline():
+    out = []
+    exp = expected_bodies()
+    for fname in OUTLINE_MODULES:
+        key = fname + "::@outline"
+        got = module_outline(fname)
+        ok = got in exp.get(key, [])
+        name = "outline_" + fname.split(".")[0] + "_ok"
+        if not ok:
+            want = set((exp.get(key) or [""])[0].splitlines())
+            diff = sorted(set(got.splitlines()) ^ want)
+            shown = "; ".join(diff)[:600].replace("*)", "* )").replace('"', "''")
+            out.append(f"(* {fname}: definitions added / removed / renamed: {shown} *)")
+        out.append(f"Definition {name} : bool := {'true' if ok else 'false'}.")
+    return out
+
+
+SECTIONS = [("stream", facts_stream), ("control", facts_control), ("packets", facts_packets), ("conn", facts_conn), ("shared", facts_shared), ("auth", facts_auth), ("results", facts_results), ("catalog", facts_catalog), ("charset", facts_charset), ("vars", facts_vars), ("route", facts_route), ("outline", facts_outline)]
 
 
 IMPORTS = {
@@ -949,7 +994,7 @@ def main():
     if sys.argv[1] == "--snapshot":
         exp = expected_bodies() if os.path.exists(_EXPECTED_PATH) else {}
         for key in sys.argv[2:]:
-            exp[key] = [current_body(key)]
+            exp[key] = [module_outline(key.split(":")[0])] if key.endswith("::@outline") else [current_body(key)]
             print("snapshot", key)
         with open(_EXPECTED_PATH, "w") as f:
             _json.dump(exp, f, indent=1, sort_keys=True)
